@@ -615,6 +615,96 @@ func offlineScenario2(name, before, during, after string, bound int, hello ...bo
 	return sc
 }
 
+// offlineTwoSockets: one Manager, two sockets ("/" and "/b") on the same connection. The connection is lost,
+// both applications emit while disconnected (plain and volatile), the manager reconnects: every non-volatile
+// event arrives exactly once in ITS namespace on the new session, volatile ones nowhere.
+func offlineTwoSockets(name string, bound int) *vx.Scenario {
+	sc := &vx.Scenario{Name: name, Bound: bound, Horizon: 5 * time.Minute}
+	sc.Body = func(e *vsched.Exec) func() vx.Result {
+		vsched.SetExploring(false)
+		lg := &evLog{e: e}
+		mn, mx := rcMin, rcMax
+		jit := float32(0.5)
+		mcfg := &sio.ManagerConfig{ReconnectionDelay: &mn, ReconnectionDelayMax: &mx, RandomizationFactor: &jit}
+		scfg := &sio.ServerConfig{}
+		scfg.EIO.PingInterval = 10 * time.Minute
+		scfg.EIO.PingTimeout = 10 * time.Minute
+		srv, mgr, link := vrig.NewSioPair(scfg, mcfg)
+		var v vsched.Var
+		got := map[string][]string{} // namespace -> "<session>:<tag>"
+		var first sio.ServerSocket
+		sessions := map[string]int{}
+		for _, ns := range []string{"/", "/b"} {
+			ns := ns
+			srv.Of(ns).OnConnection(func(s sio.ServerSocket) {})
+			srv.Of(ns).Use(func(s sio.ServerSocket, h *sio.Handshake) any {
+				var sess int
+				v.Do(func() {
+					sessions[ns]++
+					sess = sessions[ns]
+					if first == nil {
+						first = s
+					}
+				})
+				s.OnEvent("m", func(tag string) { v.Do(func() { got[ns] = append(got[ns], fmt.Sprintf("%d:%s", sess, tag)) }) })
+				lg.add("srv-ready" + ns)
+				return nil
+			})
+		}
+		failed, down := 0, false
+		link.OnRequest = func(n int, r *http.Request) bool {
+			if r.URL.Query().Get("sid") != "" {
+				return false
+			}
+			refuse := false
+			link.V.Do(func() {
+				if down && failed < 1 {
+					failed++
+					refuse = true
+				} else {
+					down = false
+				}
+			})
+			return refuse
+		}
+		sa, sb := mgr.Socket("/", nil), mgr.Socket("/b", nil)
+		sa.OnConnect(func() { lg.add("connect/") })
+		sb.OnConnect(func() { lg.add("connect/b") })
+		sa.OnDisconnect(func(r sio.Reason) { lg.add("disconnect/") })
+		sb.OnDisconnect(func(r sio.Reason) { lg.add("disconnect/b") })
+		sa.Connect()
+		sb.Connect()
+		vsched.Await(func() bool {
+			return lg.count("connect/") >= 1 && lg.count("connect/b") == 1 && lg.count("srv-ready/") >= 1 && lg.count("srv-ready/b") == 1
+		})
+		vrig.Settle(time.Second)
+		vsched.SetExploring(true)
+		link.V.Do(func() { down = true })
+		sio.VerifAbruptClose(first)
+		vsched.Await(func() bool { return lg.count("disconnect/") >= 1 && lg.count("disconnect/b") == 1 })
+		sa.Emit("m", "a0")
+		sb.Emit("m", "b0")
+		sa.Volatile().Emit("m", "a-volatile")
+		sb.Emit("m", "b1")
+		sa.Emit("m", "a1")
+		return func() vx.Result {
+			var r vx.Result
+			r.Outcome = fmt.Sprint(got)
+			what := fmt.Sprintf("server handlers saw %v; client events %v", got, lg.log)
+			want := map[string][]string{"/": {"2:a0", "2:a1"}, "/b": {"2:b0", "2:b1"}}
+			for ns, w := range want {
+				g := append([]string{}, got[ns]...)
+				sort.Strings(g)
+				if fmt.Sprint(g) != fmt.Sprint(w) {
+					r.Violate("offline, two sockets on one manager: events emitted while disconnected are not delivered exactly once, in their namespace, on the new session", "namespace %s got %v, expected %v; %s", ns, got[ns], w, what)
+				}
+			}
+			return r
+		}
+	}
+	return sc
+}
+
 // manualReopen: the application disconnects the socket and connects it again by hand, at once. The socket
 // must end up connected exactly once more, on both sides, and an event emitted afterwards is delivered once.
 // (Manager.Close() directly followed by Connect() is NOT judged: Connect() is a no-op while the socket
@@ -710,6 +800,7 @@ func scenarios(tier string) []*vx.Scenario {
 		offlineScenario2("offline/during=p-emitter-races-the-reconnection", "", "p", "", b+1, false, true),
 		offlineScenario2("offline/during=none-emitter-races-the-reconnection", "", "", "", b+1, false, true),
 		manualReopen("manual-reopen/Socket.Disconnect-then-Connect", "Socket.Disconnect", b),
+		offlineTwoSockets("offline/two-sockets-on-one-manager", b),
 		reconnectScenario("reconnect/outage2-unlimited", outage{j: 2}, b),
 		reconnectScenario("reconnect/outage2-limit2", outage{j: 2, limit: 2}, b),
 		reconnectScenario("reconnect/outage1-limit3-dial-timeout", outage{j: 1, limit: 3, dialTime: 20 * time.Second}, b),
@@ -727,7 +818,7 @@ func main() {
 		Property: "C15",
 		Level:    "model_checking",
 		Rule: "back-off: full grid of (ReconnectionDelay, ReconnectionDelayMax, jitter, attempt number incl. overflowing ones, random draw) with the random draw scripted; reconnect machine: outage of j = 0..5 failed dials x attempt limit 0..5 x {refused at once, dial times out after 20 s}, each executed on the real Manager/Server pair in virtual time and judged on the timestamped reconnect_* events; " +
-			"offline traffic: all 24 orders of {plain, volatile, ack, ack+timeout} (plus volatile chained with a timeout in either order) emitted while disconnected plus before/during/after placements, an emitter on another goroutine racing the completion of the reconnection, and Disconnect() directly followed by Connect(), explored to the deviation bound. distinct_nontrivial = grid points with attempt > 0 and jitter in (0,1] + outage cases + deviating schedules",
+			"offline traffic: all 24 orders of {plain, volatile, ack, ack+timeout} (plus volatile chained with a timeout in either order) emitted while disconnected plus before/during/after placements, an emitter on another goroutine racing the completion of the reconnection, Disconnect() directly followed by Connect(), and two sockets of one Manager emitting while disconnected, explored to the deviation bound. distinct_nontrivial = grid points with attempt > 0 and jitter in (0,1] + outage cases + deviating schedules",
 		Scenarios: scenarios,
 		Budget: func(tier string) time.Duration {
 			if tier == "thorough" {
